@@ -110,7 +110,7 @@ func c18HTTPRun(srv *c18Server, cch cache.Cache, idx int, c c18HTTPCase) []c18.S
 		return false, 0, 0, false
 	}, undel)
 
-	for cid := 0; cid < 16; cid++ {
+	for cid := 0; cid < 32; cid++ {
 		rec.Register(cid, c18.ValidBytes(cid, rej[cid]))
 	}
 
@@ -419,7 +419,7 @@ func TestVerifC18HTTP(t *testing.T) {
 		idx++
 	}
 
-	for _, c := range c18HTTPCorpus() {
+	for _, c := range append(c18HTTPCorpus(), c18.LoadCorpus[c18HTTPCase]("http")...) {
 		emit("corpus", c)
 	}
 
